@@ -601,6 +601,10 @@ func (h *Heap) mergeValue(g *Term, a, b Value) Value {
 	out := make([]*Term, len(ta))
 	for i := range ta {
 		out[i] = h.C.Ite(g, ta[i], tb[i])
+		// name merged values: nested merges would otherwise repeat ever larger ite terms at every use
+		if out[i] != ta[i] && out[i] != tb[i] && out[i].Size() > 12 {
+			out[i] = h.C.NameTerm("m", out[i])
+		}
 	}
 	return unflatten(a.T, out)
 }
